@@ -16,7 +16,7 @@ use std::sync::Arc;
 pub const COUNTERS: &[&str] = &[
     "menu_histories", "menu_operations", "menu_claimable_states", "menu_claims_executed", "menu_illegal_menu_moves_refused",
     "filler_histories", "filler_plies", "filler_boundary_claims_executed", "filler_claimable_plies", "filler_deviations_pawn", "filler_deviations_capture",
-    "filler_deviations_rook_loses_right", "filler_deviations_king_loses_rights", "filler_deviations_castle", "filler_deviations_offer", "filler_deviations_pawn_capture", "filler_deviations_promotion", "filler_long_histories", "filler_event_slots_unavailable", "t3_tolerated",
+    "filler_deviations_rook_loses_right", "filler_deviations_king_loses_rights", "filler_deviations_castle", "filler_deviations_offer", "filler_deviations_pawn_capture", "filler_deviations_promotion", "filler_long_histories", "filler_terminal_moves_tried", "filler_event_slots_unavailable", "t3_tolerated",
 ];
 
 struct MenuRoot {
@@ -145,7 +145,7 @@ fn filler(p: &RefPos, len: usize, seen: &mut BTreeSet<RefPos>, out: &mut Vec<RMo
 }
 
 #[derive(Clone, Copy, PartialEq, Eq, Debug)]
-enum Event {
+pub enum Event {
     PawnMove,
     Capture,
     RookLosesRight,
@@ -180,7 +180,7 @@ fn event_move(p: &RefPos, e: Event) -> Option<RMove> {
 
 /// Build one history: filler with the given (ply, event) deviations spliced in; total length
 /// long enough to pass 100 on the clock after the last reset.
-fn build_history(start: &RefPos, devs: &[(usize, Event)], horizon: usize) -> Option<Vec<GOp>> {
+pub fn build_history(start: &RefPos, devs: &[(usize, Event)], horizon: usize) -> Option<Vec<GOp>> {
     let mut p = *start;
     let mut seen: BTreeSet<RefPos> = BTreeSet::new();
     let mut k0 = p;
@@ -222,11 +222,14 @@ fn build_history(start: &RefPos, devs: &[(usize, Event)], horizon: usize) -> Opt
     Some(hist)
 }
 
-const FILLER_ROOTS: &[&str] = &[
+pub const FILLER_ROOTS: &[&str] = &[
     "r1n1k2r/p2p4/8/8/8/8/P2P4/R1N1K2R w KQkq - 0 1",
     "1n2k3/8/8/8/8/8/8/RN2K3 w Q - 0 1",
     "r3k1nr/7p/8/3b4/3B4/8/7P/R3K1NR b KQkq - 0 1",
     "1n2k3/P2p3p/8/8/8/8/p2P3P/1N2K3 w - - 0 1",
+    // a mate in one is available throughout a long reversible shuffle (game-ending move late in a quiet stretch)
+    "k7/8/1K6/8/8/8/8/7R w - - 0 1",
+    "7K/8/6k1/8/8/8/8/r7 b - - 0 1",
 ];
 
 fn run_history(run: &Run, start: &RefPos, hist: &[GOp], devs: &[(usize, Event)]) {
@@ -288,13 +291,35 @@ fn run_history(run: &Run, start: &RefPos, hist: &[GOp], devs: &[(usize, Event)])
             }
             ops.pop();
         }
+        // game-ending moves available now: play each on a clone, then try to claim and to accept
+        // (a finished game must refuse both, however long the quiet stretch before it was)
+        if clock % 7 == 0 || clock >= 95 {
+            let p = refg.position();
+            for m in p.legal_moves().into_iter().filter(|m| p.apply(*m).legal_moves().is_empty()).take(2) {
+                let (mut r2, mut l2) = (refg.clone(), lib.clone());
+                let mut extra = 0;
+                for op2 in [GOp::Move(m), GOp::Declare, GOp::Accept] {
+                    ops.push(op2);
+                    extra += 1;
+                    run.transitions.fetch_add(1, Ordering::Relaxed);
+                    if let Err(f) = step(&mut r2, &mut l2, &op2) {
+                        report(run, f, start, &ops);
+                        break;
+                    }
+                }
+                run.add("filler_terminal_moves_tried", 1);
+                for _ in 0..extra {
+                    ops.pop();
+                }
+            }
+        }
         if run.has_violation() {
             return;
         }
     }
 }
 
-pub const RULE: &str = "Regime A (repetition): 8 roots, each with a fixed menu of 7-10 moves (knight and king shuffles; rooks/kings leaving and re-entering home squares so that placement repeats with different rights; a double push whose en-passant right exists only on the first occurrence; triangulation; history-cutting captures and pawn moves); EVERY sequence over menu + declare_draw + (at most one) offer_draw to depth 9 (quick) / 11-12 (thorough); menu moves illegal in the current state are attempted and must be refused. Regime B (fifty-move boundary, deviation bounding): from 4 roots a deterministic self-avoiding filler of reversible, rights-preserving moves (depth-first, first in sorted order) is the default behaviour; deviations are events spliced in at ply i (quiet pawn move, capture, rook move losing a right, king move losing both, castling, an unaccepted draw offer = a non-move entry in the action log, a capture by a pawn, a promotion); plus one undisturbed history of 280 (thorough 420) plies per root, every i in 0..=104 x every event kind with 1 deviation (quick) and every pair with 2 deviations (thorough); can_declare_draw() is compared after EVERY ply and at clock 95..=104 declare_draw() is also executed on a clone. Oracle: FIDE 9.2/9.3 on the reference game (no result, and clock >= 100 or current position occurred >= 3 times; identity = placement, side, rights, en-passant possibility; histories whose verdict differs between 'a legal en-passant capture exists' and 'an enemy pawn stands beside' are not judged, T3). states = histories, transitions = operations. distinct_nontrivial = histories/plies at which a claim is due";
+pub const RULE: &str = "Regime A (repetition): 8 roots, each with a fixed menu of 7-10 moves (knight and king shuffles; rooks/kings leaving and re-entering home squares so that placement repeats with different rights; a double push whose en-passant right exists only on the first occurrence; triangulation; history-cutting captures and pawn moves); EVERY sequence over menu + declare_draw + (at most one) offer_draw to depth 9 (quick) / 11-12 (thorough); menu moves illegal in the current state are attempted and must be refused. Regime B (fifty-move boundary, deviation bounding): from 6 roots (two of them K+R v K with a mate in one available throughout) a deterministic self-avoiding filler of reversible, rights-preserving moves (depth-first, first in sorted order) is the default behaviour; deviations are events spliced in at ply i (quiet pawn move, capture, rook move losing a right, king move losing both, castling, an unaccepted draw offer = a non-move entry in the action log, a capture by a pawn, a promotion); plus one undisturbed history of 280 (thorough 420) plies per root, every i in 0..=104 x every event kind with 1 deviation (quick) and every pair with 2 deviations (thorough); can_declare_draw() is compared after EVERY ply and at clock 95..=104 declare_draw() is also executed on a clone; whenever a mating or stalemating move is available (every 7th ply and from clock 95 on) it is played on a clone followed by declare_draw and accept_draw, which a finished game must refuse. Oracle: FIDE 9.2/9.3 on the reference game (no result, and clock >= 100 or current position occurred >= 3 times; identity = placement, side, rights, en-passant possibility; histories whose verdict differs between 'a legal en-passant capture exists' and 'an enemy pawn stands beside' are not judged, T3). states = histories, transitions = operations. distinct_nontrivial = histories/plies at which a claim is due";
 
 pub fn run(tier: Tier) -> i32 {
     let run = Arc::new(Run::new("C11", tier, COUNTERS));
